@@ -4,5 +4,1403 @@ From BV Require Import Model.LeCoc.
 Import ListNotations.
 Open Scope Z_scope.
 
-Lemma key_is_dst k src dst : key_of (lecoc_keysel k) src dst = dst.
+(* ------------------------------------------------------------------ lists *)
+Lemma zlen_nonneg {A} (l : list A) : 0 <= zlen l.
+Proof. unfold zlen. lia. Qed.
+
+Lemma zlen_app {A} (l1 l2 : list A) : zlen (l1 ++ l2) = zlen l1 + zlen l2.
+Proof. unfold zlen. rewrite app_length. lia. Qed.
+
+Lemma zlen_nil {A} : zlen (@nil A) = 0.
 Proof. reflexivity. Qed.
+
+Lemma zlen_cons {A} (x : A) l : zlen (x :: l) = 1 + zlen l.
+Proof. unfold zlen. cbn [length]. lia. Qed.
+
+Lemma zlen_zero_nil {A} (l : list A) : zlen l = 0 -> l = [].
+Proof. destruct l; [reflexivity|]. rewrite zlen_cons. pose proof (zlen_nonneg l). lia. Qed.
+
+Lemma zlen_pos {A} (l : list A) : l <> [] -> 1 <= zlen l.
+Proof. destruct l; [congruence|]. rewrite zlen_cons. pose proof (zlen_nonneg l). lia. Qed.
+
+Lemma ztake_zdrop {A} n (l : list A) : ztake n l ++ zdrop n l = l.
+Proof. apply firstn_skipn. Qed.
+
+Lemma zlen_ztake_le {A} n (l : list A) : 0 <= n -> zlen (ztake n l) <= n.
+Proof.
+  intros Hn. unfold zlen, ztake. pose proof (firstn_le_length (Z.to_nat n) l). lia.
+Qed.
+
+Lemma ztake_nonempty {A} n (l : list A) : 1 <= n -> l <> [] -> ztake n l <> [].
+Proof.
+  intros Hn Hl. unfold ztake. destruct (Z.to_nat n) eqn:E; [lia|].
+  destruct l; [congruence|]. cbn. discriminate.
+Qed.
+
+Definition nonempty (b : bytes) : Prop := b <> [].
+
+Lemma concat_nonempty_nil (fs : list bytes) :
+  Forall nonempty fs -> concat fs = [] -> fs = [].
+Proof.
+  destruct fs as [|f fs]; [reflexivity|]. intros HF Hc. inversion HF; subst.
+  cbn in Hc. apply app_eq_nil in Hc. destruct Hc. contradiction.
+Qed.
+
+(* ------------------------------------------------------------------ le16 *)
+Lemma un16_le16 n tl : 0 <= n < 65536 -> un16 (le16 n ++ tl) = n.
+Proof.
+  intros Hn. unfold le16, un16. cbn [app].
+  rewrite (Z.mod_small (n / 256) 256).
+  - pose proof (Z.div_mod n 256). lia.
+  - split; [apply Z.div_pos; lia|]. apply Z.div_lt_upper_bound; lia.
+Qed.
+
+Lemma zlen_enc p : zlen (enc_sdu p) = 2 + zlen p.
+Proof. unfold enc_sdu, le16. rewrite zlen_app. reflexivity. Qed.
+
+(* ---------------------------------------------------------------- gather *)
+Lemma gather_spec q : forall room,
+  let '(p, q') := gather room q in
+  p ++ concat q' = concat q /\
+  (0 <= room -> zlen p <= room) /\
+  (Forall nonempty q -> Forall nonempty q') /\
+  (Forall nonempty q -> q <> [] -> 1 <= room -> p <> []).
+Proof.
+  induction q as [|d q IH]; intros room; cbn [gather].
+  - repeat split; auto; cbn; try lia; try congruence.
+  - destruct (room <=? 0) eqn:Er.
+    + apply Z.leb_le in Er. repeat split; auto; try (cbn; lia); try (intros; lia).
+    + apply Z.leb_gt in Er.
+      pose proof (ztake_zdrop room d) as Hd.
+      pose proof (zlen_ztake_le room d ltac:(lia)) as Hl.
+      destruct (zdrop room d) as [|x rest] eqn:Edrop.
+      * rewrite app_nil_r in Hd.
+        specialize (IH (room - zlen (ztake room d))).
+        destruct (gather (room - zlen (ztake room d)) q) as [p q''].
+        destruct IH as (Hc & Hlen & Hne & Hp).
+        repeat split.
+        -- cbn [concat]. rewrite <- app_assoc, Hc, Hd. reflexivity.
+        -- intros _. rewrite zlen_app. specialize (Hlen ltac:(lia)). lia.
+        -- intros HF. inversion HF; subst. auto.
+        -- intros HF _ _. inversion HF; subst. rewrite Hd.
+           intros Habs. apply app_eq_nil in Habs. destruct Habs. contradiction.
+      * repeat split.
+        -- cbn [concat]. rewrite app_assoc, Hd. reflexivity.
+        -- intros _. exact Hl.
+        -- intros HF. inversion HF; subst. constructor; [unfold nonempty; discriminate|assumption].
+        -- intros HF _ Hroom. inversion HF; subst. apply ztake_nonempty; assumption.
+Qed.
+
+(* ------------------------------------------------------------------ emit *)
+Definition rest_bytes (o : option bytes) : bytes := match o with Some s => s | None => [] end.
+Definition sdu_ok (o : option bytes) : Prop := match o with Some s => s <> [] | None => True end.
+
+Lemma emit_spec mps s :
+  1 <= mps -> s <> [] ->
+  let '(packet, sdu') := emit mps s in
+  packet ++ rest_bytes sdu' = s /\ packet <> [] /\ zlen packet <= mps /\ sdu_ok sdu'.
+Proof.
+  intros Hm Hs. unfold emit.
+  pose proof (ztake_zdrop mps s) as Hd.
+  pose proof (zlen_ztake_le mps s ltac:(lia)) as Hl.
+  pose proof (ztake_nonempty mps s Hm Hs) as Hne.
+  assert (Hsk : skipn (length (ztake mps s)) s = zdrop mps s).
+  { unfold zdrop, ztake. rewrite firstn_length.
+    destruct (Nat.le_ge_cases (Z.to_nat mps) (length s)) as [H|H].
+    - rewrite Nat.min_l by exact H. reflexivity.
+    - rewrite Nat.min_r by exact H. rewrite !skipn_all2; auto. }
+  destruct (Nat.eqb (length (ztake mps s)) (length s)) eqn:E.
+  - apply Nat.eqb_eq in E. cbn [rest_bytes sdu_ok]. rewrite app_nil_r.
+    repeat split; auto.
+    assert (Hz : length (zdrop mps s) = 0%nat).
+    { rewrite <- Hd in E at 2. rewrite app_length in E. lia. }
+    destruct (zdrop mps s); [|discriminate]. now rewrite app_nil_r in Hd.
+  - apply Nat.eqb_neq in E. cbn [rest_bytes sdu_ok]. rewrite Hsk.
+    repeat split; auto.
+    intros Hz. rewrite Hz, app_nil_r in Hd. rewrite Hd in E. congruence.
+Qed.
+
+(* -------------------------------------------------------- reassembly (asm) *)
+(* the reassembly part of r_on_pdu depends on (in_sdu, in_sdu_length) only *)
+Definition asm_state := (option bytes * Z)%type.
+
+Definition abuf (o : option bytes) (pdu : bytes) : bytes :=
+  match o with None => pdu | Some s => s ++ pdu end.
+Definition obuf (buf : bytes) : option bytes :=
+  match buf with [] => None | _ => Some buf end.
+
+Lemma abuf_obuf buf f : abuf (obuf buf) f = buf ++ f.
+Proof. destruct buf; reflexivity. Qed.
+
+Definition asm_step (a : asm_state) (pdu : bytes) : asm_state * option bytes * bool :=
+  let buf := abuf (fst a) pdu in
+  let len := if snd a =? 0 then (if 2 <=? zlen buf then un16 buf else 0) else snd a in
+  if len =? 0 then ((Some buf, 0), None, false)
+  else if zlen buf <? 2 + len then ((Some buf, len), None, false)
+  else if negb (zlen buf =? 2 + len) then ((None, 0), None, true)
+  else ((None, 0), Some (skipn 2 buf), false).
+
+Lemma r_on_pdu_asm r pdu :
+  let rr := r_on_pdu r pdu in
+  asm_step (r_sdu r, r_len r) pdu = ((r_sdu (rr_state rr), r_len (rr_state rr)), rr_sink rr, rr_overflow rr) /\
+  r_credits (rr_state rr) = fst (r_account r) /\ rr_credit rr = snd (r_account r) /\
+  r_max (rr_state rr) = r_max r.
+Proof.
+  unfold r_on_pdu, asm_step, abuf. cbn [fst snd].
+  destruct (r_account r) as [c cr]. cbv zeta.
+  destruct (r_sdu r) as [s|]; cbv beta iota;
+  repeat match goal with |- context [if ?c then _ else _] => destruct c end;
+  cbn; repeat split; reflexivity.
+Qed.
+
+(* the receiver state after it has absorbed the bytes [buf] of an SDU whose
+   payload has n bytes *)
+Definition st_of (n : Z) (buf : bytes) : asm_state :=
+  (obuf buf, if 2 <=? zlen buf then n else 0).
+
+Lemma obuf_some buf : buf <> [] -> obuf buf = Some buf.
+Proof. destruct buf; [congruence|reflexivity]. Qed.
+
+Definition boundary : asm_state := (None, 0).
+
+Definition valid_sdu (p : bytes) : Prop := 1 <= zlen p < 65536.
+
+Lemma asm_step_partial p buf f rest :
+  valid_sdu p -> f <> [] -> buf ++ f ++ rest = enc_sdu p ->
+  asm_step (st_of (zlen p) buf) f =
+    match rest with
+    | [] => (boundary, Some p, false)
+    | _ => (st_of (zlen p) (buf ++ f), None, false)
+    end.
+Proof.
+  intros [Hp1 Hp2] Hf Heq. set (n := zlen p) in *.
+  assert (Hlen : zlen buf + zlen f + zlen rest = 2 + n).
+  { pose proof (f_equal zlen Heq) as H. rewrite !zlen_app, zlen_enc in H. unfold n. lia. }
+  pose proof (zlen_pos f Hf) as Hfl. pose proof (zlen_nonneg buf). pose proof (zlen_nonneg rest).
+  unfold asm_step, st_of. cbn [fst snd].
+  rewrite abuf_obuf.
+  assert (Hun : 2 <= zlen (buf ++ f) -> un16 (buf ++ f) = n).
+  { intros H2. unfold enc_sdu in Heq.
+    assert (Hx : exists t, buf ++ f = le16 (zlen p) ++ t).
+    { rewrite app_assoc in Heq. unfold le16 in *.
+      destruct (buf ++ f) as [|b0 [|b1 t]]; rewrite ?zlen_cons, ?zlen_nil in H2; try lia.
+      cbn in Heq. inversion Heq. eexists. reflexivity. }
+    destruct Hx as [t Ht]. rewrite Ht. apply un16_le16. fold n. lia. }
+  assert (Hl : (if (if 2 <=? zlen buf then n else 0) =? 0
+                then if 2 <=? zlen (buf ++ f) then un16 (buf ++ f) else 0
+                else if 2 <=? zlen buf then n else 0) = if 2 <=? zlen (buf ++ f) then n else 0).
+  { rewrite zlen_app in *. destruct (2 <=? zlen buf) eqn:E1.
+    - apply Z.leb_le in E1. destruct (n =? 0) eqn:E2; [apply Z.eqb_eq in E2; lia|].
+      destruct (2 <=? zlen buf + zlen f) eqn:E3; [reflexivity|apply Z.leb_gt in E3; lia].
+    - cbn. destruct (2 <=? zlen buf + zlen f) eqn:E3; [|reflexivity].
+      apply Z.leb_le in E3. apply Hun. exact E3. }
+  rewrite Hl. clear Hl Hun.
+  rewrite zlen_app.
+  destruct (2 <=? zlen buf + zlen f) eqn:E3.
+  - apply Z.leb_le in E3. destruct (n =? 0) eqn:E2; [apply Z.eqb_eq in E2; lia|].
+    destruct rest as [|x rest].
+    + rewrite zlen_nil in Hlen.
+      destruct (zlen buf + zlen f <? 2 + n) eqn:E4; [apply Z.ltb_lt in E4; lia|].
+      destruct (zlen buf + zlen f =? 2 + n) eqn:E5; [|apply Z.eqb_neq in E5; lia].
+      cbn [negb]. rewrite app_nil_r in Heq. rewrite Heq.
+      reflexivity.
+    + rewrite zlen_cons in Hlen. pose proof (zlen_nonneg rest).
+      destruct (zlen buf + zlen f <? 2 + n) eqn:E4; [|apply Z.ltb_ge in E4; lia].
+      rewrite (obuf_some (buf ++ f)); [reflexivity|].
+      intros Ebf; apply app_eq_nil in Ebf; destruct Ebf; contradiction.
+  - cbn [Z.eqb]. apply Z.leb_gt in E3.
+    destruct rest as [|x rest]; [rewrite zlen_nil in Hlen; lia|].
+    rewrite (obuf_some (buf ++ f)); [reflexivity|].
+    intros Ebf; apply app_eq_nil in Ebf; destruct Ebf; contradiction.
+Qed.
+
+(* ----------------------------------------------------- data in flight *)
+(* [flight buf F tail P]: the receiver has absorbed [buf] of the SDU at the head of
+   P; F are the frames on the wire (oldest first); [tail] is what the sender has
+   still to send of the last SDU of P.  Every SDU boundary is a frame boundary. *)
+Inductive flight : bytes -> list bytes -> bytes -> list bytes -> Prop :=
+| fl_nil : flight [] [] [] []
+| fl_sdu : forall buf fs p F tail P,
+    valid_sdu p -> buf ++ concat fs = enc_sdu p -> fs <> [] -> Forall nonempty fs ->
+    flight [] F tail P -> flight buf (fs ++ F) tail (p :: P)
+| fl_last : forall buf fs tail p,
+    valid_sdu p -> buf ++ concat fs ++ tail = enc_sdu p -> tail <> [] -> Forall nonempty fs ->
+    flight buf fs tail [p].
+
+Definition hd_len (P : list bytes) : Z := match P with p :: _ => zlen p | [] => 0 end.
+
+Lemma st_of_nil n : st_of n [] = boundary.
+Proof. reflexivity. Qed.
+
+Lemma flight_empty buf F tail : flight buf F tail [] -> buf = [] /\ F = [] /\ tail = [].
+Proof. intros H. inversion H; subst. auto. Qed.
+
+Lemma flight_idle buf P : flight buf [] [] P -> buf = [] /\ P = [].
+Proof.
+  intros H. inversion H; subst; auto.
+  - match goal with H : _ ++ _ = [] |- _ => apply app_eq_nil in H; destruct H; contradiction end.
+  - contradiction.
+Qed.
+
+Lemma enc_nonempty p : enc_sdu p <> [].
+Proof. unfold enc_sdu, le16. discriminate. Qed.
+
+Lemma flight_deliver buf f F tail P :
+  flight buf (f :: F) tail P ->
+  (asm_step (st_of (hd_len P) buf) f = (st_of (hd_len P) (buf ++ f), None, false) /\
+   flight (buf ++ f) F tail P) \/
+  (exists p P', P = p :: P' /\ asm_step (st_of (hd_len P) buf) f = (boundary, Some p, false) /\
+                flight [] F tail P').
+Proof.
+  intros H. inversion H; subst.
+  - (* fl_sdu *)
+    destruct fs as [|f' fs']; [congruence|].
+    match goal with H : (_ :: _) ++ _ = _ :: _ |- _ => cbn in H; inversion H; subst; clear H end.
+    match goal with H : Forall nonempty (_ :: _) |- _ => inversion H; subst; clear H end.
+    cbn [concat] in *. cbn [hd_len].
+    pose proof (asm_step_partial p buf f (concat fs') ltac:(assumption) ltac:(assumption) ltac:(assumption)) as Hs.
+    destruct fs' as [|g fs''].
+    + right. exists p, P0. cbn in Hs. repeat split; auto.
+    + left. destruct (concat (g :: fs'')) eqn:Ec.
+      { apply concat_nonempty_nil in Ec; [discriminate|assumption]. }
+      split; [exact Hs|].
+      rewrite <- Ec in *. apply fl_sdu; auto.
+      * rewrite <- app_assoc. assumption.
+      * discriminate.
+  - (* fl_last *)
+    left. match goal with H : Forall nonempty (_ :: _) |- _ => inversion H; subst; clear H end.
+    cbn [concat hd_len] in *.
+    match goal with H : _ ++ (_ ++ _) ++ _ = enc_sdu _ |- _ => rewrite <- app_assoc in H; rename H into Heq end.
+    pose proof (asm_step_partial p buf f (concat F ++ tail) ltac:(assumption) ltac:(assumption) Heq) as Hs.
+    destruct (concat F ++ tail) eqn:Ec.
+    { apply app_eq_nil in Ec. destruct Ec. contradiction. }
+    split; [exact Hs|]. rewrite <- Ec in *.
+    apply fl_last; auto. rewrite <- app_assoc. assumption.
+Qed.
+
+Lemma flight_emit buf F t P : flight buf F t P ->
+  forall x y, t = x ++ y -> x <> [] -> flight buf (F ++ [x]) y P.
+Proof.
+  induction 1; intros x y Ht Hx.
+  - symmetry in Ht. apply app_eq_nil in Ht. destruct Ht. contradiction.
+  - rewrite <- app_assoc. apply fl_sdu; auto.
+  - subst tail. destruct y as [|y0 y'].
+    + rewrite app_nil_r in *.
+      pose proof (fl_sdu buf (fs ++ [x]) p [] [] []) as Hk. rewrite app_nil_r in Hk.
+      apply Hk; auto.
+      * rewrite concat_app. cbn. rewrite app_nil_r. assumption.
+      * intros Hn. apply app_eq_nil in Hn. destruct Hn. discriminate.
+      * apply Forall_app. split; [assumption|]. constructor; [exact Hx|constructor].
+      * constructor.
+    + apply fl_last; auto.
+      * rewrite concat_app. cbn [concat]. rewrite app_nil_r, <- !app_assoc. assumption.
+      * discriminate.
+      * apply Forall_app. split; [assumption|]. constructor; [exact Hx|constructor].
+Qed.
+
+Lemma flight_new buf F t P : flight buf F t P ->
+  forall p, t = [] -> valid_sdu p -> flight buf F (enc_sdu p) (P ++ [p]).
+Proof.
+  induction 1; intros q Ht Hq.
+  - cbn [app]. apply fl_last; auto. apply enc_nonempty.
+  - cbn [app]. apply fl_sdu; auto.
+  - contradiction.
+Qed.
+
+Lemma hd_len_app P Q buf F t : flight buf F t P ->
+  st_of (hd_len (P ++ Q)) buf = st_of (hd_len P) buf.
+Proof.
+  intros H. destruct P; [|reflexivity].
+  apply flight_empty in H. destruct H as (-> & _). reflexivity.
+Qed.
+
+(* ------------------------------------------------------- process_output *)
+Lemma po_idle n mtu mps dr :
+  po n mtu mps [] None dr = ([], [], None, match n with O => dr | S _ => true end).
+Proof. destruct n; reflexivity. Qed.
+
+Definition frame_ok (mps : Z) (f : bytes) : Prop := 1 <= zlen f <= mps.
+Definition sdu_fits (mtu : Z) (p : bytes) : Prop := valid_sdu p /\ zlen p <= mtu.
+
+Lemma po_spec n : forall mtu mps q sdu dr buf F P,
+  1 <= mps -> 1 <= mtu < 65536 -> Forall nonempty q -> sdu_ok sdu ->
+  flight buf F (rest_bytes sdu) P ->
+  let '(fs, q', sdu', dr') := po n mtu mps q sdu dr in
+  exists P',
+    flight buf (F ++ fs) (rest_bytes sdu') (P ++ P') /\
+    concat P' ++ concat q' = concat q /\
+    Forall (sdu_fits mtu) P' /\
+    Forall nonempty q' /\ sdu_ok sdu' /\
+    Forall (frame_ok mps) fs /\
+    (length fs <= n)%nat /\
+    ((length fs < n)%nat -> q' = [] /\ sdu' = None /\ dr' = true) /\
+    (dr = false -> dr' = true -> q' = [] /\ sdu' = None).
+Proof.
+  induction n as [|n IH]; intros mtu mps q sdu dr buf F P Hmps Hmtu Hq Hsdu Hfl.
+  - cbn [po]. exists []. rewrite !app_nil_r. repeat split; auto; try (cbn; lia); try congruence.
+  - cbn [po]. destruct sdu as [s|].
+    + cbn [sdu_ok rest_bytes] in *.
+      pose proof (emit_spec mps s Hmps Hsdu) as He.
+      destruct (emit mps s) as [packet sdu1]. destruct He as (Hps & Hpne & Hpl & Hok1).
+      pose proof (flight_emit _ _ _ _ Hfl packet (rest_bytes sdu1) (eq_sym Hps) Hpne) as Hfl1.
+      specialize (IH mtu mps q sdu1 dr buf (F ++ [packet]) P Hmps Hmtu Hq Hok1 Hfl1).
+      destruct (po n mtu mps q sdu1 dr) as [[[fs q2] sdu2] dr2].
+      destruct IH as (P' & H1 & H2 & H3 & H4 & H5 & H6 & H7 & H8 & H9).
+      exists P'. rewrite <- app_assoc in H1. cbn [app] in H1.
+      repeat split; auto;
+        try (constructor; [split; [apply zlen_pos; assumption|assumption]|assumption]);
+        try (cbn [length]; lia);
+        try (destruct H8 as (? & ? & ?); [cbn [length] in *; lia|]; assumption);
+        try (destruct H9 as (? & ?); assumption).
+    + destruct q as [|d q0].
+      * exists []. rewrite !app_nil_r. repeat split; auto; cbn; try lia; try constructor.
+      * cbn [rest_bytes] in Hfl.
+        pose proof (gather_spec (d :: q0) mtu) as Hg.
+        destruct (gather mtu (d :: q0)) as [payload q1].
+        destruct Hg as (Hc & Hl & Hne & Hp).
+        specialize (Hl ltac:(lia)). specialize (Hne Hq).
+        specialize (Hp Hq ltac:(discriminate) ltac:(lia)).
+        assert (Hv : valid_sdu payload).
+        { split; [apply zlen_pos; assumption|lia]. }
+        pose proof (flight_new _ _ _ _ Hfl payload eq_refl Hv) as Hfl0.
+        pose proof (emit_spec mps (enc_sdu payload) Hmps (enc_nonempty payload)) as He.
+        destruct (emit mps (enc_sdu payload)) as [packet sdu1].
+        destruct He as (Hps & Hpne & Hpl & Hok1).
+        pose proof (flight_emit _ _ _ _ Hfl0 packet (rest_bytes sdu1) (eq_sym Hps) Hpne) as Hfl1.
+        specialize (IH mtu mps q1 sdu1 dr buf (F ++ [packet]) (P ++ [payload]) Hmps Hmtu Hne Hok1 Hfl1).
+        destruct (po n mtu mps q1 sdu1 dr) as [[[fs q2] sdu2] dr2].
+        destruct IH as (P' & H1 & H2 & H3 & H4 & H5 & H6 & H7 & H8 & H9).
+        exists (payload :: P'). rewrite <- !app_assoc in H1. cbn [app] in H1.
+        repeat split; auto;
+          try (cbn [concat]; rewrite <- app_assoc, H2; exact Hc);
+          try (constructor; [split; assumption|assumption]);
+          try (constructor; [split; [apply zlen_pos; assumption|assumption]|assumption]);
+          try (cbn [length]; lia);
+          try (destruct H8 as (? & ? & ?); [cbn [length] in *; lia|]; assumption);
+          try (destruct H9 as (? & ?); assumption).
+Qed.
+
+Lemma po_false n : forall mtu mps q sdu,
+  let '(fs, q', sdu', dr') := po n mtu mps q sdu false in
+  dr' = true -> q' = [] /\ sdu' = None.
+Proof.
+  induction n as [|n IH]; intros mtu mps q sdu; cbn [po].
+  - discriminate.
+  - destruct sdu as [s|].
+    + destruct (emit mps s) as [packet sdu1]. specialize (IH mtu mps q sdu1).
+      destruct (po n mtu mps q sdu1 false) as [[[fs q2] sdu2] dr2]. exact IH.
+    + destruct q as [|d q0]; [auto|].
+      destruct (gather mtu (d :: q0)) as [payload q1].
+      destruct (emit mps (enc_sdu payload)) as [packet sdu1]. specialize (IH mtu mps q1 sdu1).
+      destruct (po n mtu mps q1 sdu1 false) as [[[fs q2] sdu2] dr2]. exact IH.
+Qed.
+
+Lemma po_drained n mtu mps q sdu dr :
+  (dr = true -> q = [] /\ sdu = None) ->
+  let '(fs, q', sdu', dr') := po n mtu mps q sdu dr in
+  dr' = true -> q' = [] /\ sdu' = None.
+Proof.
+  intros Hdr. destruct dr.
+  - destruct (Hdr eq_refl) as (-> & ->). rewrite po_idle. auto.
+  - apply po_false.
+Qed.
+
+(* ------------------------------------------- one direction of one channel *)
+(* sender half at one end, receiver half at the other, K-frames in flight one
+   way, credit packets in flight the other way; W / S are ghost histories: all
+   bytes written so far, all bytes handed to the sink so far. *)
+Record view := mkV {
+  v_s : sndr; v_r : rcvr; v_F : list bytes; v_K : list Z; v_W : bytes; v_S : bytes
+}.
+
+Inductive vlabel := VWrite (d : bytes) | VFrame | VCredit.
+
+Definition opt_list {A} (o : option A) : list A := match o with Some x => [x] | None => [] end.
+Definition opt_bytes (o : option bytes) : bytes := match o with Some x => x | None => [] end.
+
+Definition v_step (v : view) (l : vlabel) : view :=
+  match l with
+  | VWrite d =>
+      let '(s, fs) := s_write (v_s v) d in
+      mkV s (v_r v) (v_F v ++ fs) (v_K v) (v_W v ++ d) (v_S v)
+  | VFrame =>
+      match v_F v with
+      | [] => v
+      | f :: F =>
+          let rr := r_on_pdu (v_r v) f in
+          mkV (v_s v) (rr_state rr) F (v_K v ++ opt_list (rr_credit rr)) (v_W v)
+              (v_S v ++ opt_bytes (rr_sink rr))
+      end
+  | VCredit =>
+      match v_K v with
+      | [] => v
+      | n :: K =>
+          let '(s, fs) := s_on_credits (v_s v) n in
+          mkV s (v_r v) (v_F v ++ fs) K (v_W v) (v_S v)
+      end
+  end.
+
+Definition vlabel_ok (l : vlabel) : Prop := match l with VWrite d => d <> [] | _ => True end.
+
+Fixpoint zsum (l : list Z) : Z := match l with [] => 0 | x :: l' => x + zsum l' end.
+
+Lemma zsum_app a b : zsum (a ++ b) = zsum a + zsum b.
+Proof. induction a; cbn [app zsum]; lia. Qed.
+
+Lemma zsum_nonneg l : Forall (fun n => 1 <= n) l -> 0 <= zsum l.
+Proof. induction 1; cbn [zsum]; lia. Qed.
+
+Record vinv (v : view) : Prop := {
+  vi_mps : 1 <= s_mps (v_s v);
+  vi_mtu : 1 <= s_mtu (v_s v) < 65536;
+  vi_max : 1 <= r_max (v_r v);
+  (* the credit ledger *)
+  vi_ledger : s_credits (v_s v) + zlen (v_F v) + zsum (v_K v) = r_credits (v_r v);
+  vi_cred : 0 <= s_credits (v_s v);
+  vi_K : Forall (fun n => 1 <= n) (v_K v);
+  vi_rc : r_max (v_r v) / 2 < r_credits (v_r v) <= r_max (v_r v);
+  (* work conservation and the meaning of drained *)
+  vi_work : 0 < s_credits (v_s v) ->
+            s_queue (v_s v) = [] /\ s_sdu (v_s v) = None /\ s_drained (v_s v) = true;
+  vi_drained : s_drained (v_s v) = true -> s_queue (v_s v) = [] /\ s_sdu (v_s v) = None;
+  vi_queue : Forall nonempty (s_queue (v_s v));
+  vi_sdu : sdu_ok (s_sdu (v_s v));
+  vi_frames : Forall (frame_ok (s_mps (v_s v))) (v_F v);
+  (* the byte stream *)
+  vi_flight : exists buf P,
+      (r_sdu (v_r v), r_len (v_r v)) = st_of (hd_len P) buf /\
+      flight buf (v_F v) (rest_bytes (s_sdu (v_s v))) P /\
+      Forall (sdu_fits (s_mtu (v_s v))) P /\
+      v_W v = v_S v ++ concat P ++ concat (s_queue (v_s v))
+}.
+
+Definition v_init (credits mtu mps : Z) : view :=
+  mkV (snd_init credits mtu mps) (rcv_init credits) [] [] [] [].
+
+Lemma half_lt m : 1 <= m -> m / 2 < m.
+Proof. intros. apply Z.div_lt; lia. Qed.
+
+Lemma vinv_init credits mtu mps :
+  1 <= credits -> 1 <= mtu < 65536 -> 1 <= mps -> vinv (v_init credits mtu mps).
+Proof.
+  intros Hc Hm Hp. constructor; cbn; auto; try lia.
+  - split; [apply half_lt; lia|lia].
+  - exists [], []. repeat split; auto; constructor.
+Qed.
+
+(* what process_output does to a view: used for write and for on_credits *)
+Lemma vinv_po v c q dr fs s' W' K' :
+  vinv v ->
+  0 <= c -> Forall nonempty q ->
+  process_output (mkSnd c (s_mtu (v_s v)) (s_mps (v_s v)) q (s_sdu (v_s v)) dr) = (s', fs) ->
+  c + zlen (v_F v) + zsum K' = r_credits (v_r v) ->
+  Forall (fun n => 1 <= n) K' ->
+  (dr = true -> q = [] /\ s_sdu (v_s v) = None) ->
+  (forall P, v_W v = v_S v ++ concat P ++ concat (s_queue (v_s v)) ->
+             W' = v_S v ++ concat P ++ concat q) ->
+  vinv (mkV s' (v_r v) (v_F v ++ fs) K' W' (v_S v)).
+Proof.
+  intros Hi Hc Hq Hpo Hled HK Hdr HW.
+  destruct Hi as [Imps Imtu Imax Iled Icred IK Irc Iwork Idr Iq Isdu Ifr Ifl].
+  destruct Ifl as (buf & P & Hst & Hfl & HP & HWS).
+  unfold process_output in Hpo. cbn [s_credits s_mtu s_mps s_queue s_sdu s_drained] in Hpo.
+  pose proof (po_spec (Z.to_nat c) (s_mtu (v_s v)) (s_mps (v_s v)) q (s_sdu (v_s v)) dr buf (v_F v) P
+                Imps Imtu Hq Isdu Hfl) as Hs.
+  pose proof (po_drained (Z.to_nat c) (s_mtu (v_s v)) (s_mps (v_s v)) q (s_sdu (v_s v)) dr Hdr) as Hd.
+  destruct (po (Z.to_nat c) (s_mtu (v_s v)) (s_mps (v_s v)) q (s_sdu (v_s v)) dr) as [[[fs0 q'] sdu'] dr'].
+  inversion Hpo; subst s' fs0. clear Hpo.
+  destruct Hs as (P' & H1 & H2 & H3 & H4 & H5 & H6 & H7 & H8 & H9).
+  assert (Hfsl : zlen fs <= c) by (unfold zlen; lia).
+  constructor; cbn [v_s v_r v_F v_K v_W v_S s_credits s_mtu s_mps s_queue s_sdu s_drained]; auto.
+  - rewrite zlen_app. lia.
+  - lia.
+  - intros Hpos. apply H8. unfold zlen in *. lia.
+  - apply Forall_app. split; assumption.
+  - exists buf, (P ++ P'). repeat split.
+    + rewrite (hd_len_app P P' buf _ _ Hfl). exact Hst.
+    + exact H1.
+    + apply Forall_app. split; assumption.
+    + rewrite (HW P HWS). rewrite concat_app, <- !app_assoc. rewrite H2. reflexivity.
+Qed.
+
+Lemma vinv_step v l : vinv v -> vlabel_ok l -> vinv (v_step v l).
+Proof.
+  intros Hi Hl. destruct l as [d| |]; cbn [v_step].
+  - (* write *)
+    unfold s_write.
+    destruct (process_output _) as [s' fs] eqn:Hpo.
+    eapply (vinv_po v (s_credits (v_s v)) (s_queue (v_s v) ++ [d]) false fs s' (v_W v ++ d) (v_K v) Hi);
+      try exact Hpo.
+    + apply (vi_cred v Hi).
+    + apply Forall_app. split; [apply (vi_queue v Hi)|]. constructor; [exact Hl|constructor].
+    + apply (vi_ledger v Hi).
+    + apply (vi_K v Hi).
+    + discriminate.
+    + intros P HW. rewrite HW, concat_app. cbn [concat]. rewrite app_nil_r, <- !app_assoc. reflexivity.
+  - (* a K-frame reaches the receiver *)
+    destruct (v_F v) as [|f F] eqn:EF; [exact Hi|].
+    destruct Hi as [Imps Imtu Imax Iled Icred IK Irc Iwork Idr Iq Isdu Ifr Ifl].
+    rewrite EF in *.
+    destruct Ifl as (buf & P & Hst & Hfl & HP & HWS).
+    pose proof (r_on_pdu_asm (v_r v) f) as Ha. cbv zeta in Ha.
+    destruct Ha as (Hasm & Hcr & Hcp & Hmax).
+    rewrite zlen_cons in Iled. pose proof (zlen_nonneg F) as HF0. pose proof (zsum_nonneg _ IK) as HK0.
+    assert (Hacc : r_account (v_r v) =
+                   if r_credits (v_r v) - 1 <=? r_max (v_r v) / 2
+                   then (r_max (v_r v), Some (r_max (v_r v) - (r_credits (v_r v) - 1)))
+                   else (r_credits (v_r v) - 1, None)).
+    { unfold r_account, r_thresh. destruct (r_credits (v_r v) =? 0) eqn:E; [apply Z.eqb_eq in E; lia|reflexivity]. }
+    rewrite Hacc in Hcr, Hcp.
+    inversion Ifr as [|? ? Hf0 Ifr']; subst.
+    rewrite Hst in Hasm.
+    constructor; cbn [v_s v_r v_F v_K v_W v_S]; auto.
+    + lia.
+    + (* ledger *)
+      rewrite Hcr, Hcp, zsum_app.
+      destruct (r_credits (v_r v) - 1 <=? r_max (v_r v) / 2); cbn [fst snd opt_list zsum]; lia.
+    + rewrite Hcp. apply Forall_app. split; [assumption|].
+      destruct (r_credits (v_r v) - 1 <=? r_max (v_r v) / 2) eqn:E; cbn [snd opt_list]; [|constructor].
+      apply Z.leb_le in E. constructor; [|constructor]. pose proof (half_lt _ Imax). lia.
+    + rewrite Hcr, Hmax.
+      destruct (r_credits (v_r v) - 1 <=? r_max (v_r v) / 2) eqn:E; cbn [fst].
+      * pose proof (half_lt _ Imax). lia.
+      * apply Z.leb_gt in E. lia.
+    + (* stream *)
+      destruct (flight_deliver _ _ _ _ _ Hfl) as [(Hs & Hfl') | (p & P' & -> & Hs & Hfl')].
+      * rewrite Hs in Hasm. inversion Hasm as [[Hb Hl0 Hk Ho]].
+        exists (buf ++ f), P. cbn [opt_bytes]. rewrite app_nil_r.
+        repeat split; auto.
+      * rewrite Hs in Hasm. inversion Hasm as [[Hb Hl0 Hk Ho]].
+        exists [], P'. cbn [opt_bytes].
+        repeat split; auto.
+        -- inversion HP; assumption.
+        -- rewrite HWS. cbn [concat]. rewrite <- !app_assoc. reflexivity.
+  - (* a credit packet reaches the sender *)
+    destruct (v_K v) as [|n K] eqn:EK; [exact Hi|].
+    unfold s_on_credits.
+    destruct (process_output _) as [s' fs] eqn:Hpo.
+    pose proof (vi_K v Hi) as HK. rewrite EK in HK. inversion HK as [|? ? Hn HK']; subst.
+    pose proof (vi_ledger v Hi) as Hled. rewrite EK in Hled. cbn [zsum] in Hled.
+    eapply (vinv_po v (s_credits (v_s v) + n) (s_queue (v_s v)) (s_drained (v_s v)) fs s' (v_W v) K Hi);
+      try exact Hpo; auto.
+    + pose proof (vi_cred v Hi). lia.
+    + apply (vi_queue v Hi).
+    + lia.
+    + apply (vi_drained v Hi).
+Qed.
+
+(* ------------------------------------------------------------- reachability *)
+Fixpoint v_run (v : view) (ls : list vlabel) : view :=
+  match ls with [] => v | l :: ls' => v_run (v_step v l) ls' end.
+
+Lemma vinv_run ls : forall v, vinv v -> Forall vlabel_ok ls -> vinv (v_run v ls).
+Proof.
+  induction ls as [|l ls IH]; intros v Hi Hok; cbn [v_run]; [exact Hi|].
+  inversion Hok; subst. apply IH; [apply vinv_step; assumption|assumption].
+Qed.
+
+(* quiescent: nothing in flight either way *)
+Definition v_quiet (v : view) : Prop := v_F v = [] /\ v_K v = [].
+(* final: everything written has reached the sink and drain() has completed *)
+Definition v_final (v : view) : Prop :=
+  v_W v = v_S v /\ s_queue (v_s v) = [] /\ s_sdu (v_s v) = None /\ s_drained (v_s v) = true.
+
+Lemma vinv_prefix v : vinv v -> exists X, v_W v = v_S v ++ X.
+Proof.
+  intros Hi. destruct (vi_flight v Hi) as (buf & P & _ & _ & _ & HW).
+  eexists. exact HW.
+Qed.
+
+Lemma vinv_quiet_final v : vinv v -> v_quiet v -> v_final v.
+Proof.
+  intros Hi (HF & HK).
+  pose proof (vi_ledger v Hi) as Hled. rewrite HF, HK in Hled. cbn [zsum] in Hled. rewrite zlen_nil in Hled.
+  pose proof (vi_rc v Hi) as Hrc. pose proof (vi_max v Hi) as Hmax.
+  assert (Hpos : 0 < s_credits (v_s v)).
+  { assert (0 <= r_max (v_r v) / 2) by (apply Z.div_pos; lia). lia. }
+  destruct (vi_work v Hi Hpos) as (Hq & Hs & Hd).
+  destruct (vi_flight v Hi) as (buf & P & _ & Hfl & _ & HW).
+  rewrite HF, Hs in Hfl. cbn [rest_bytes] in Hfl.
+  destruct (flight_idle _ _ Hfl) as (_ & ->).
+  rewrite Hq in HW. cbn [concat] in HW. rewrite app_nil_r in HW.
+  repeat split; auto.
+Qed.
+
+(* ---- progress: with no further writes every delivery strictly decreases
+   [measure], and as long as the state is not final a delivery is enabled. *)
+Definition pending_bytes (s : sndr) : Z :=
+  zlen (rest_bytes (s_sdu s)) + 3 * zlen (concat (s_queue s)).
+Definition measure (v : view) : Z :=
+  3 * pending_bytes (v_s v) + 2 * zlen (v_F v) + zlen (v_K v).
+
+Lemma po_measure n : forall mtu mps q sdu dr,
+  1 <= mps -> 1 <= mtu -> Forall nonempty q -> sdu_ok sdu ->
+  let '(fs, q', sdu', dr') := po n mtu mps q sdu dr in
+  zlen (rest_bytes sdu') + 3 * zlen (concat q') + zlen fs <= zlen (rest_bytes sdu) + 3 * zlen (concat q).
+Proof.
+  induction n as [|n IH]; intros mtu mps q sdu dr Hmps Hmtu Hq Hsdu; cbn [po].
+  - rewrite zlen_nil. lia.
+  - destruct sdu as [s|].
+    + cbn [sdu_ok rest_bytes] in *.
+      pose proof (emit_spec mps s Hmps Hsdu) as He.
+      destruct (emit mps s) as [packet sdu1]. destruct He as (Hps & Hpne & Hpl & Hok1).
+      specialize (IH mtu mps q sdu1 dr Hmps Hmtu Hq Hok1).
+      destruct (po n mtu mps q sdu1 dr) as [[[fs q2] sdu2] dr2].
+      rewrite zlen_cons. rewrite <- Hps, zlen_app. pose proof (zlen_pos _ Hpne). lia.
+    + destruct q as [|d q0].
+      * cbn. lia.
+      * pose proof (gather_spec (d :: q0) mtu) as Hg.
+        destruct (gather mtu (d :: q0)) as [payload q1].
+        destruct Hg as (Hc & Hl & Hne & Hp).
+        specialize (Hne Hq). specialize (Hp Hq ltac:(discriminate) ltac:(lia)).
+        pose proof (emit_spec mps (enc_sdu payload) Hmps (enc_nonempty payload)) as He.
+        destruct (emit mps (enc_sdu payload)) as [packet sdu1].
+        destruct He as (Hps & Hpne & Hpl & Hok1).
+        specialize (IH mtu mps q1 sdu1 dr Hmps Hmtu Hne Hok1).
+        destruct (po n mtu mps q1 sdu1 dr) as [[[fs q2] sdu2] dr2].
+        rewrite zlen_cons. cbn [rest_bytes]. rewrite zlen_nil.
+        rewrite <- Hc, zlen_app.
+        pose proof (f_equal zlen Hps) as Hz. rewrite zlen_app, zlen_enc in Hz.
+        pose proof (zlen_pos _ Hpne). pose proof (zlen_pos _ Hp). lia.
+Qed.
+
+Definition enabled (v : view) (l : vlabel) : Prop :=
+  match l with VFrame => v_F v <> [] | VCredit => v_K v <> [] | VWrite _ => False end.
+
+Lemma measure_nonneg v : vinv v -> 0 <= measure v.
+Proof.
+  intros _. unfold measure, pending_bytes.
+  pose proof (zlen_nonneg (rest_bytes (s_sdu (v_s v)))). pose proof (zlen_nonneg (concat (s_queue (v_s v)))).
+  pose proof (zlen_nonneg (v_F v)). pose proof (zlen_nonneg (v_K v)). lia.
+Qed.
+
+Lemma measure_decreases v l : vinv v -> enabled v l -> measure (v_step v l) < measure v.
+Proof.
+  intros Hi He. destruct l as [d| |]; cbn [enabled] in He; [contradiction| |]; cbn [v_step].
+  - destruct (v_F v) as [|f F] eqn:EF; [congruence|].
+    unfold measure. cbn [v_s v_F v_K]. rewrite EF, zlen_app, zlen_cons.
+    assert (zlen (opt_list (rr_credit (r_on_pdu (v_r v) f))) <= 1).
+    { destruct (rr_credit _); cbn; lia. }
+    lia.
+  - destruct (v_K v) as [|n K] eqn:EK; [congruence|].
+    unfold s_on_credits, process_output.
+    cbn [s_credits s_mtu s_mps s_queue s_sdu s_drained].
+    pose proof (po_measure (Z.to_nat (s_credits (v_s v) + n)) (s_mtu (v_s v)) (s_mps (v_s v))
+                  (s_queue (v_s v)) (s_sdu (v_s v)) (s_drained (v_s v))
+                  (vi_mps v Hi) (proj1 (vi_mtu v Hi)) (vi_queue v Hi) (vi_sdu v Hi)) as Hm.
+    destruct (po _ _ _ _ _ _) as [[[fs q'] sdu'] dr'].
+    unfold measure, pending_bytes. cbn [v_s v_F v_K s_queue s_sdu]. rewrite EK, zlen_app, zlen_cons.
+    pose proof (zlen_nonneg fs). lia.
+Qed.
+
+Fixpoint all_enabled (v : view) (ls : list vlabel) : Prop :=
+  match ls with [] => True | l :: ls' => enabled v l /\ all_enabled (v_step v l) ls' end.
+
+Lemma enabled_ok v l : enabled v l -> vlabel_ok l.
+Proof. destruct l; cbn; auto; contradiction. Qed.
+
+Lemma deliveries_bounded ls : forall v,
+  vinv v -> all_enabled v ls -> zlen ls <= measure v.
+Proof.
+  induction ls as [|l ls IH]; intros v Hi Hen.
+  - rewrite zlen_nil. apply measure_nonneg. exact Hi.
+  - destruct Hen as (He & Hen). rewrite zlen_cons.
+    pose proof (measure_decreases v l Hi He).
+    specialize (IH (v_step v l) (vinv_step v l Hi (enabled_ok v l He)) Hen). lia.
+Qed.
+
+Lemma not_final_enabled v : vinv v -> ~ v_final v -> enabled v VFrame \/ enabled v VCredit.
+Proof.
+  intros Hi Hnf. cbn [enabled].
+  destruct (v_F v) eqn:EF; [|left; discriminate].
+  destruct (v_K v) eqn:EK; [|right; discriminate].
+  exfalso. apply Hnf. apply vinv_quiet_final; [exact Hi|split; assumption].
+Qed.
+
+(* some delivery schedule completes the transfer; by [deliveries_bounded] every
+   delivery schedule is finite, so every maximal one ends in a final state *)
+Lemma completes v : vinv v -> exists ls, all_enabled v ls /\ v_quiet (v_run v ls).
+Proof.
+  intros Hi. remember (Z.to_nat (measure v)) as k eqn:Hk.
+  revert v Hi Hk. induction k as [k IH] using lt_wf_ind. intros v Hi Hk.
+  destruct (v_F v) as [|f F] eqn:EF.
+  - destruct (v_K v) as [|n K] eqn:EK.
+    + exists []. split; [exact I|]. split; assumption.
+    + assert (He : enabled v VCredit) by (cbn; congruence).
+      pose proof (measure_decreases v _ Hi He) as Hd. pose proof (measure_nonneg v Hi) as Hm0.
+      pose proof (measure_nonneg _ (vinv_step v VCredit Hi I)) as H0.
+      destruct (IH (Z.to_nat (measure (v_step v VCredit))) ltac:(lia) (v_step v VCredit)
+                  (vinv_step v VCredit Hi I) eq_refl) as (ls & Hen & Hq).
+      exists (VCredit :: ls). split; [split; assumption|exact Hq].
+  - assert (He : enabled v VFrame) by (cbn; congruence).
+    pose proof (measure_decreases v _ Hi He) as Hd. pose proof (measure_nonneg v Hi) as Hm0.
+    pose proof (measure_nonneg _ (vinv_step v VFrame Hi I)) as H0.
+    destruct (IH (Z.to_nat (measure (v_step v VFrame))) ltac:(lia) (v_step v VFrame)
+                (vinv_step v VFrame Hi I) eq_refl) as (ls & Hen & Hq).
+    exists (VFrame :: ls). split; [split; assumption|exact Hq].
+Qed.
+
+(* =================================================== the two-party system *)
+Definition frame_of (p : pkt) : list bytes := match p with PFrame _ d => [d] | PCredit _ _ => [] end.
+Definition credit_of (p : pkt) : list Z := match p with PCredit _ n => [n] | PFrame _ _ => [] end.
+Definition frames_of (w : list pkt) : list bytes := flat_map frame_of w.
+Definition credits_of (w : list pkt) : list Z := flat_map credit_of w.
+
+Lemma frames_of_app a b : frames_of (a ++ b) = frames_of a ++ frames_of b.
+Proof. apply flat_map_app. Qed.
+Lemma credits_of_app a b : credits_of (a ++ b) = credits_of a ++ credits_of b.
+Proof. apply flat_map_app. Qed.
+Lemma frames_of_frames c fs : frames_of (map (PFrame c) fs) = fs.
+Proof. induction fs; cbn; [reflexivity|]. f_equal. exact IHfs. Qed.
+Lemma credits_of_frames c fs : credits_of (map (PFrame c) fs) = [].
+Proof. induction fs; cbn; auto. Qed.
+Lemma frames_of_credit c o : frames_of (match o with Some n => [PCredit c n] | None => [] end) = [].
+Proof. destruct o; reflexivity. Qed.
+Lemma credits_of_credit c o : credits_of (match o with Some n => [PCredit c n] | None => [] end) = opt_list o.
+Proof. destruct o; reflexivity. Qed.
+
+(* what an endpoint puts on the wire names the channel the way the peer's
+   tables expect: frames carry our destination CID, credits our source CID *)
+Definition addressed (e : ep) (p : pkt) : Prop :=
+  match p with PFrame cid _ => cid = e_dst e | PCredit cid _ => cid = e_src e end.
+
+Record wired (st : lsys) : Prop := {
+  w_ab : e_dst (l_a st) = e_src (l_b st);
+  w_ba : e_dst (l_b st) = e_src (l_a st);
+  w_ka : e_key (l_a st) = e_dst (l_a st);
+  w_kb : e_key (l_b st) = e_dst (l_b st);
+  w_wab : Forall (addressed (l_a st)) (l_ab st);
+  w_wba : Forall (addressed (l_b st)) (l_ba st)
+}.
+
+(* ghost histories: bytes written at A / B, bytes sunk at A / B *)
+Record ghost := mkG { g_wa : bytes; g_wb : bytes; g_sa : bytes; g_sb : bytes }.
+
+Definition view_ab (st : lsys) (g : ghost) : view :=
+  mkV (e_snd (l_a st)) (e_rcv (l_b st)) (frames_of (l_ab st)) (credits_of (l_ba st)) (g_wa g) (g_sb g).
+Definition view_ba (st : lsys) (g : ghost) : view :=
+  mkV (e_snd (l_b st)) (e_rcv (l_a st)) (frames_of (l_ba st)) (credits_of (l_ab st)) (g_wb g) (g_sa g).
+
+Definition g_step (g : ghost) (l : label) (r : lres) : ghost :=
+  mkG (g_wa g ++ match l with WriteA d => d | _ => [] end)
+      (g_wb g ++ match l with WriteB d => d | _ => [] end)
+      (g_sa g ++ opt_bytes (lr_sink_a r))
+      (g_sb g ++ opt_bytes (lr_sink_b r)).
+
+Definition label_ok (l : label) : Prop :=
+  match l with WriteA d | WriteB d => d <> [] | _ => True end.
+
+Record linv (st : lsys) (g : ghost) : Prop := {
+  li_wired : wired st;
+  li_ab : vinv (view_ab st g);
+  li_ba : vinv (view_ba st g)
+}.
+
+Lemma addressed_frames e fs : Forall (addressed e) (frames_out e fs).
+Proof. unfold frames_out. induction fs; cbn; constructor; auto. reflexivity. Qed.
+
+Lemma view_eq v s r F K W S :
+  v_s v = s -> v_r v = r -> v_F v = F -> v_K v = K -> v_W v = W -> v_S v = S -> v = mkV s r F K W S.
+Proof. destruct v; cbn; intros; subst; reflexivity. Qed.
+
+Ltac lists_simpl :=
+  rewrite ?frames_of_app, ?credits_of_app, ?frames_of_frames, ?credits_of_frames,
+          ?frames_of_credit, ?credits_of_credit, ?app_nil_r.
+
+Lemma l_step_inv st g l :
+  linv st g -> label_ok l ->
+  let r := l_step st l in
+  linv (lr_state r) (g_step g l r) /\ lr_dropped r = false /\ lr_overflow r = false.
+Proof.
+  intros [Hw Hab Hba] Hl. destruct Hw as [Wab Wba Wka Wkb Wwab Wwba].
+  destruct l as [d|d| |]; cbn [l_step].
+  - (* WriteA *)
+    cbn [ep_step]. destruct (s_write (e_snd (l_a st)) d) as [s fs] eqn:Es.
+    cbn [er_state er_out lr_state lr_dropped lr_overflow]. split; [|auto].
+    constructor.
+    + constructor; cbn [l_a l_b l_ab l_ba with_snd e_src e_dst e_key]; auto.
+      apply Forall_app. split; [assumption|]. apply (addressed_frames (l_a st)).
+    + pose proof (vinv_step (view_ab st g) (VWrite d) Hab Hl) as Hs.
+      cbn [v_step view_ab v_s v_r v_F v_K v_W v_S] in Hs. rewrite Es in Hs.
+      unfold view_ab, g_step. cbn [l_a l_b l_ab l_ba with_snd e_snd e_rcv g_wa g_sb lr_sink_b opt_bytes].
+      unfold frames_out. lists_simpl. exact Hs.
+    + unfold view_ba, g_step. cbn [l_a l_b l_ab l_ba with_snd e_snd e_rcv g_wb g_sa lr_sink_a opt_bytes].
+      unfold frames_out. lists_simpl. exact Hba.
+  - (* WriteB *)
+    cbn [ep_step]. destruct (s_write (e_snd (l_b st)) d) as [s fs] eqn:Es.
+    cbn [er_state er_out lr_state lr_dropped lr_overflow]. split; [|auto].
+    constructor.
+    + constructor; cbn [l_a l_b l_ab l_ba with_snd e_src e_dst e_key]; auto.
+      apply Forall_app. split; [assumption|]. apply (addressed_frames (l_b st)).
+    + unfold view_ab, g_step. cbn [l_a l_b l_ab l_ba with_snd e_snd e_rcv g_wa g_sb lr_sink_b opt_bytes].
+      unfold frames_out. lists_simpl. exact Hab.
+    + pose proof (vinv_step (view_ba st g) (VWrite d) Hba Hl) as Hs.
+      cbn [v_step view_ba v_s v_r v_F v_K v_W v_S] in Hs. rewrite Es in Hs.
+      unfold view_ba, g_step. cbn [l_a l_b l_ab l_ba with_snd e_snd e_rcv g_wb g_sa lr_sink_a opt_bytes].
+      unfold frames_out. lists_simpl. exact Hs.
+  - (* DeliverAB *)
+    destruct (l_ab st) as [|p w] eqn:Ew.
+    + cbn [lr_state lr_dropped lr_overflow]. split; [|auto]. constructor.
+      * constructor; auto. rewrite Ew. constructor.
+      * unfold view_ab, g_step in *. cbn [lr_sink_b lr_sink_a opt_bytes]. lists_simpl. exact Hab.
+      * unfold view_ba, g_step in *. cbn [lr_sink_b lr_sink_a opt_bytes]. lists_simpl. exact Hba.
+    + inversion Wwab as [|? ? Hp Wwab']; subst. destruct p as [cid d|cid n]; cbn [addressed] in Hp.
+      * (* a K-frame *)
+        cbn [ep_step]. rewrite Hp, Wab, Z.eqb_refl.
+        cbn [er_state er_out er_sink er_dropped er_overflow lr_state lr_dropped lr_overflow].
+        pose proof (vinv_step (view_ab st g) VFrame Hab I) as Hs.
+        cbn [v_step view_ab v_s v_r v_F v_K v_W v_S] in Hs. rewrite Ew in Hs.
+        cbn [frames_of flat_map frame_of app] in Hs. fold (frames_of w) in Hs.
+        pose proof (r_on_pdu_asm (e_rcv (l_b st)) d) as Ha. cbv zeta in Ha.
+        assert (Hov : rr_overflow (r_on_pdu (e_rcv (l_b st)) d) = false).
+        { destruct (vi_flight _ Hab) as (buf & P & Hst & Hfl & _ & _).
+          cbn [view_ab v_s v_r v_F] in Hst, Hfl. rewrite Ew in Hfl.
+          cbn [frames_of flat_map frame_of app] in Hfl. fold (frames_of w) in Hfl.
+          destruct Ha as (Hasm & _). rewrite Hst in Hasm.
+          destruct (flight_deliver _ _ _ _ _ Hfl) as [(Hx & _) | (p & P' & _ & Hx & _)];
+            rewrite Hx in Hasm; inversion Hasm; reflexivity. }
+        split; [|auto]. constructor.
+        -- constructor; cbn [l_a l_b l_ab l_ba with_rcv e_src e_dst e_key]; auto.
+           apply Forall_app. split; [assumption|].
+           destruct (rr_credit _); constructor; [reflexivity|constructor].
+        -- unfold view_ab, g_step.
+           cbn [l_a l_b l_ab l_ba with_rcv e_snd e_rcv g_wa g_sb lr_sink_b]. lists_simpl. exact Hs.
+        -- unfold view_ba, g_step in *.
+           cbn [l_a l_b l_ab l_ba with_rcv e_snd e_rcv g_wb g_sa lr_sink_a opt_bytes] in *.
+           rewrite Ew in Hba. cbn [credits_of flat_map credit_of app] in Hba. fold (credits_of w) in Hba.
+           lists_simpl. exact Hba.
+      * (* a credit packet *)
+        cbn [ep_step]. rewrite Hp, Wkb, Wba, Z.eqb_refl.
+        destruct (s_on_credits (e_snd (l_b st)) n) as [s fs] eqn:Es.
+        cbn [er_state er_out er_sink er_dropped er_overflow lr_state lr_dropped lr_overflow].
+        pose proof (vinv_step (view_ba st g) VCredit Hba I) as Hs.
+        cbn [v_step view_ba v_s v_r v_F v_K v_W v_S] in Hs. rewrite Ew in Hs.
+        cbn [credits_of flat_map credit_of app] in Hs. fold (credits_of w) in Hs. rewrite Es in Hs.
+        split; [|auto]. constructor.
+        -- constructor; cbn [l_a l_b l_ab l_ba with_snd e_src e_dst e_key]; auto.
+           apply Forall_app. split; [assumption|]. apply (addressed_frames (l_b st)).
+        -- unfold view_ab, g_step in *.
+           cbn [l_a l_b l_ab l_ba with_snd e_snd e_rcv g_wa g_sb lr_sink_b opt_bytes] in *.
+           rewrite Ew in Hab. cbn [frames_of flat_map frame_of app] in Hab. fold (frames_of w) in Hab.
+           unfold frames_out. lists_simpl. exact Hab.
+        -- unfold view_ba, g_step.
+           cbn [l_a l_b l_ab l_ba with_snd e_snd e_rcv g_wb g_sa lr_sink_a opt_bytes].
+           unfold frames_out. lists_simpl. exact Hs.
+  - (* DeliverBA *)
+    destruct (l_ba st) as [|p w] eqn:Ew.
+    + cbn [lr_state lr_dropped lr_overflow]. split; [|auto]. constructor.
+      * constructor; auto. rewrite Ew. constructor.
+      * unfold view_ab, g_step in *. cbn [lr_sink_b lr_sink_a opt_bytes]. lists_simpl. exact Hab.
+      * unfold view_ba, g_step in *. cbn [lr_sink_b lr_sink_a opt_bytes]. lists_simpl. exact Hba.
+    + inversion Wwba as [|? ? Hp Wwba']; subst. destruct p as [cid d|cid n]; cbn [addressed] in Hp.
+      * cbn [ep_step]. rewrite Hp, Wba, Z.eqb_refl.
+        cbn [er_state er_out er_sink er_dropped er_overflow lr_state lr_dropped lr_overflow].
+        pose proof (vinv_step (view_ba st g) VFrame Hba I) as Hs.
+        cbn [v_step view_ba v_s v_r v_F v_K v_W v_S] in Hs. rewrite Ew in Hs.
+        cbn [frames_of flat_map frame_of app] in Hs. fold (frames_of w) in Hs.
+        pose proof (r_on_pdu_asm (e_rcv (l_a st)) d) as Ha. cbv zeta in Ha.
+        assert (Hov : rr_overflow (r_on_pdu (e_rcv (l_a st)) d) = false).
+        { destruct (vi_flight _ Hba) as (buf & P & Hst & Hfl & _ & _).
+          cbn [view_ba v_s v_r v_F] in Hst, Hfl. rewrite Ew in Hfl.
+          cbn [frames_of flat_map frame_of app] in Hfl. fold (frames_of w) in Hfl.
+          destruct Ha as (Hasm & _). rewrite Hst in Hasm.
+          destruct (flight_deliver _ _ _ _ _ Hfl) as [(Hx & _) | (p & P' & _ & Hx & _)];
+            rewrite Hx in Hasm; inversion Hasm; reflexivity. }
+        split; [|auto]. constructor.
+        -- constructor; cbn [l_a l_b l_ab l_ba with_rcv e_src e_dst e_key]; auto.
+           apply Forall_app. split; [assumption|].
+           destruct (rr_credit _); constructor; [reflexivity|constructor].
+        -- unfold view_ab, g_step in *.
+           cbn [l_a l_b l_ab l_ba with_rcv e_snd e_rcv g_wa g_sb lr_sink_b opt_bytes] in *.
+           rewrite Ew in Hab. cbn [credits_of flat_map credit_of app] in Hab. fold (credits_of w) in Hab.
+           lists_simpl. exact Hab.
+        -- unfold view_ba, g_step.
+           cbn [l_a l_b l_ab l_ba with_rcv e_snd e_rcv g_wb g_sa lr_sink_a]. lists_simpl. exact Hs.
+      * cbn [ep_step]. rewrite Hp, Wka, Wab, Z.eqb_refl.
+        destruct (s_on_credits (e_snd (l_a st)) n) as [s fs] eqn:Es.
+        cbn [er_state er_out er_sink er_dropped er_overflow lr_state lr_dropped lr_overflow].
+        pose proof (vinv_step (view_ab st g) VCredit Hab I) as Hs.
+        cbn [v_step view_ab v_s v_r v_F v_K v_W v_S] in Hs. rewrite Ew in Hs.
+        cbn [credits_of flat_map credit_of app] in Hs. fold (credits_of w) in Hs. rewrite Es in Hs.
+        split; [|auto]. constructor.
+        -- constructor; cbn [l_a l_b l_ab l_ba with_snd e_src e_dst e_key]; auto.
+           apply Forall_app. split; [assumption|]. apply (addressed_frames (l_a st)).
+        -- unfold view_ab, g_step.
+           cbn [l_a l_b l_ab l_ba with_snd e_snd e_rcv g_wa g_sb lr_sink_b opt_bytes].
+           unfold frames_out. lists_simpl. exact Hs.
+        -- unfold view_ba, g_step in *.
+           cbn [l_a l_b l_ab l_ba with_snd e_snd e_rcv g_wb g_sa lr_sink_a opt_bytes] in *.
+           rewrite Ew in Hba. cbn [frames_of flat_map frame_of app] in Hba. fold (frames_of w) in Hba.
+           unfold frames_out. lists_simpl. exact Hba.
+Qed.
+
+(* ------------------------------------------------------------ whole runs *)
+Definition written_a (ls : list label) : bytes :=
+  concat (map (fun l => match l with WriteA d => d | _ => [] end) ls).
+Definition written_b (ls : list label) : bytes :=
+  concat (map (fun l => match l with WriteB d => d | _ => [] end) ls).
+Definition sunk_a (rs : list lres) : bytes := concat (map (fun r => opt_bytes (lr_sink_a r)) rs).
+Definition sunk_b (rs : list lres) : bytes := concat (map (fun r => opt_bytes (lr_sink_b r)) rs).
+
+Definition clean (r : lres) : Prop := lr_dropped r = false /\ lr_overflow r = false.
+
+Lemma l_run_inv ls : forall st g,
+  linv st g -> Forall label_ok ls ->
+  let '(st', rs) := l_run st ls in
+  linv st' (mkG (g_wa g ++ written_a ls) (g_wb g ++ written_b ls)
+                (g_sa g ++ sunk_a rs) (g_sb g ++ sunk_b rs)) /\
+  Forall clean rs.
+Proof.
+  induction ls as [|l ls IH]; intros st g Hi Hok; cbn [l_run].
+  - unfold written_a, written_b, sunk_a, sunk_b. cbn. rewrite !app_nil_r. destruct g. split; [exact Hi|constructor].
+  - inversion Hok as [|? ? Hl Hok']; subst.
+    destruct (l_step_inv st g l Hi Hl) as (Hi' & Hd & Ho).
+    specialize (IH (lr_state (l_step st l)) (g_step g l (l_step st l)) Hi' Hok').
+    destruct (l_run (lr_state (l_step st l)) ls) as [st' rs].
+    destruct IH as (IH1 & IH2). split; [|constructor; [split; assumption|assumption]].
+    unfold g_step in IH1. cbn [g_wa g_wb g_sa g_sb] in IH1.
+    unfold written_a, written_b, sunk_a, sunk_b in *. cbn [map concat].
+    rewrite <- !app_assoc in IH1. exact IH1.
+Qed.
+
+Record params_ok (mtu mps cr : Z) : Prop := {
+  p_mtu : 1 <= mtu < 65536; p_mps : 1 <= mps; p_cr : 1 <= cr
+}.
+
+Lemma linv_init ka kb cid_a cid_b mtu_a mps_a cr_a mtu_b mps_b cr_b :
+  params_ok mtu_a mps_a cr_a -> params_ok mtu_b mps_b cr_b ->
+  linv (l_init (lecoc_keysel ka) (lecoc_keysel kb) cid_a cid_b mtu_a mps_a cr_a mtu_b mps_b cr_b)
+       (mkG [] [] [] []).
+Proof.
+  intros [Ha1 Ha2 Ha3] [Hb1 Hb2 Hb3]. constructor.
+  - constructor; cbn; auto.
+  - apply (vinv_init cr_b mtu_b mps_b); assumption.
+  - apply (vinv_init cr_a mtu_a mps_a); assumption.
+Qed.
+
+(* parameters never change *)
+Lemma process_output_params s : let '(s', fs) := process_output s in
+  s_mtu s' = s_mtu s /\ s_mps s' = s_mps s.
+Proof. unfold process_output. destruct (po _ _ _ _ _ _) as [[[fs q] sdu] dr]. cbn. auto. Qed.
+
+(* ---- bounds on what is observed at a step *)
+Lemma view_sink_fits v f F d :
+  vinv v -> v_F v = f :: F -> rr_sink (r_on_pdu (v_r v) f) = Some d -> sdu_fits (s_mtu (v_s v)) d.
+Proof.
+  intros Hi EF Hs. destruct (vi_flight v Hi) as (buf & P & Hst & Hfl & HP & _).
+  rewrite EF in Hfl. pose proof (r_on_pdu_asm (v_r v) f) as Ha. cbv zeta in Ha.
+  destruct Ha as (Hasm & _). rewrite Hst in Hasm.
+  destruct (flight_deliver _ _ _ _ _ Hfl) as [(Hx & _) | (p & P' & -> & Hx & _)];
+    rewrite Hx in Hasm; inversion Hasm as [[Hb Hl Hk Ho]]; rewrite Hs in Hk.
+  - discriminate.
+  - inversion Hk; subst. inversion HP; assumption.
+Qed.
+
+Lemma l_step_sink_b st g d :
+  linv st g -> lr_sink_b (l_step st DeliverAB) = Some d -> sdu_fits (s_mtu (e_snd (l_a st))) d.
+Proof.
+  intros [Hw Hab Hba] Hs. cbn [l_step] in Hs.
+  destruct (l_ab st) as [|p w] eqn:Ew; [discriminate|]. cbn [lr_sink_b] in Hs.
+  destruct p as [cid d0|cid n]; cbn [ep_step] in Hs.
+  - destruct (cid =? e_src (l_b st)); cbn [er_sink] in Hs; [|discriminate].
+    apply (view_sink_fits (view_ab st g) d0 (frames_of w) d Hab); [|exact Hs].
+    cbn [view_ab v_F]. rewrite Ew. reflexivity.
+  - destruct (cid =? e_key (l_b st)); [|discriminate].
+    destruct (s_on_credits _ _); discriminate.
+Qed.
+
+Lemma l_step_sink_a st g d :
+  linv st g -> lr_sink_a (l_step st DeliverBA) = Some d -> sdu_fits (s_mtu (e_snd (l_b st))) d.
+Proof.
+  intros [Hw Hab Hba] Hs. cbn [l_step] in Hs.
+  destruct (l_ba st) as [|p w] eqn:Ew; [discriminate|]. cbn [lr_sink_a] in Hs.
+  destruct p as [cid d0|cid n]; cbn [ep_step] in Hs.
+  - destruct (cid =? e_src (l_a st)); cbn [er_sink] in Hs; [|discriminate].
+    apply (view_sink_fits (view_ba st g) d0 (frames_of w) d Hba); [|exact Hs].
+    cbn [view_ba v_F]. rewrite Ew. reflexivity.
+  - destruct (cid =? e_key (l_a st)); [|discriminate].
+    destruct (s_on_credits _ _); discriminate.
+Qed.
+
+(* every packet on a wire is addressed to the peer's channel and every K-frame on
+   it is within the MPS its receiver advertised *)
+Definition frames_within (mps : Z) (w : list pkt) : Prop := Forall (frame_ok mps) (frames_of w).
+
+Lemma linv_wire_frames st g : linv st g ->
+  frames_within (s_mps (e_snd (l_a st))) (l_ab st) /\ frames_within (s_mps (e_snd (l_b st))) (l_ba st).
+Proof. intros [Hw Hab Hba]. split; [apply (vi_frames _ Hab)|apply (vi_frames _ Hba)]. Qed.
+
+(* a frame is put on the wire only against a credit: with [k] frames sent at a
+   step the sender held at least k credits before it, and still holds >= 0 *)
+Lemma s_write_credits s d : let '(s', fs) := s_write s d in
+  s_credits s' = s_credits s - zlen fs.
+Proof. unfold s_write, process_output. destruct (po _ _ _ _ _ _) as [[[fs q] sdu] dr]. reflexivity. Qed.
+
+Lemma s_on_credits_credits s n : let '(s', fs) := s_on_credits s n in
+  s_credits s' = s_credits s + n - zlen fs.
+Proof. unfold s_on_credits, process_output. destruct (po _ _ _ _ _ _) as [[[fs q] sdu] dr]. reflexivity. Qed.
+
+(* ------------------------------------------------- routing with many channels *)
+Definition srcs (cs : list chan_desc) : list Z := map cd_src cs.
+Definition dsts (cs : list chan_desc) : list Z := map cd_dst cs.
+
+Lemma t_get_fresh_channels sel cs k :
+  ~ In k (srcs cs) -> t_get (m_channels (file_all sel cs)) k = None.
+Proof.
+  induction cs as [|c cs IH]; cbn; intros Hn; [reflexivity|].
+  destruct (cd_src c =? k) eqn:E; [apply Z.eqb_eq in E; tauto|]. apply IH. tauto.
+Qed.
+
+Lemma route_frame_ok sel cs c d :
+  NoDup (srcs cs) -> In c cs -> route (file_all sel cs) (PFrame (cd_src c) d) = Some (cd_id c).
+Proof.
+  induction cs as [|x cs IH]; cbn [In]; intros Hnd Hin; [contradiction|].
+  cbn [srcs map] in Hnd. inversion Hnd as [|? ? Hx Hnd']; subst.
+  cbn [file_all file_channel route m_channels t_set t_get].
+  destruct Hin as [->|Hin].
+  - rewrite Z.eqb_refl. reflexivity.
+  - destruct (cd_src x =? cd_src c) eqn:E.
+    + apply Z.eqb_eq in E. exfalso. apply Hx. rewrite E. apply in_map. exact Hin.
+    + apply (IH Hnd' Hin).
+Qed.
+
+Lemma route_credit_ok sel cs c n :
+  (forall k, sel k = KDst) ->
+  NoDup (dsts cs) -> In c cs -> route (file_all sel cs) (PCredit (cd_dst c) n) = Some (cd_id c).
+Proof.
+  intros Hsel. induction cs as [|x cs IH]; cbn [In]; intros Hnd Hin; [contradiction|].
+  cbn [dsts map] in Hnd. inversion Hnd as [|? ? Hx Hnd']; subst.
+  cbn [file_all file_channel route m_lecoc t_set t_get]. rewrite Hsel. cbn [key_of].
+  destruct Hin as [->|Hin].
+  - rewrite Z.eqb_refl. reflexivity.
+  - destruct (cd_dst x =? cd_dst c) eqn:E.
+    + apply Z.eqb_eq in E. exfalso. apply Hx. rewrite E. apply in_map. exact Hin.
+    + apply (IH Hnd' Hin).
+Qed.
+
+(* D07 as it was (enhanced acceptor filed under the source CID): a credit packet
+   for one channel is handed to another one, or to none *)
+Definition sel_d07 (k : kind) : keysel := match k with EnhAcceptor => KSrc | _ => KDst end.
+
+Lemma route_credit_d07_refuted :
+  exists cs c n, NoDup (srcs cs) /\ NoDup (dsts cs) /\ In c cs /\
+    route (file_all sel_d07 cs) (PCredit (cd_dst c) n) <> Some (cd_id c).
+Proof.
+  exists [mkCd 2 EnhInitiator 64 65; mkCd 1 EnhAcceptor 65 64], (mkCd 1 EnhAcceptor 65 64), 1.
+  repeat split.
+  - repeat constructor; cbn; intuition discriminate.
+  - repeat constructor; cbn; intuition discriminate.
+  - cbn. auto.
+  - vm_compute. discriminate.
+Qed.
+
+(* the two-party system with the enhanced acceptor filed under its source CID and
+   a peer whose CID differs: the credit is dropped and the transfer is stuck
+   with part of an SDU unsent and nothing in flight *)
+Lemma credits_routed_d07_refuted :
+  let st0 := l_init KDst (sel_d07 EnhAcceptor) 80 64 64 23 2 64 23 2 in
+  let '(st, rs) := l_run st0 [WriteB (mk_data 0 60); DeliverBA; DeliverBA; DeliverAB; DeliverAB] in
+  existsb lr_dropped rs = true /\ l_ab st = [] /\ l_ba st = [] /\
+  s_sdu (e_snd (l_b st)) <> None /\ s_credits (e_snd (l_b st)) = 0.
+Proof. vm_compute. repeat split; try reflexivity; discriminate. Qed.
+
+(* ------------------------------ termination of deliveries, both directions *)
+Definition g0 : ghost := mkG [] [] [] [].
+Definition lmeasure (st : lsys) : Z := measure (view_ab st g0) + measure (view_ba st g0).
+
+Definition l_enabled (st : lsys) (l : label) : Prop :=
+  match l with DeliverAB => l_ab st <> [] | DeliverBA => l_ba st <> [] | _ => False end.
+
+Lemma zlen_opt_list {A} (o : option A) : 0 <= zlen (opt_list o) <= 1.
+Proof. destruct o; cbn; lia. Qed.
+
+Lemma on_credits_measure s n fs s' :
+  1 <= s_mps s -> 1 <= s_mtu s -> Forall nonempty (s_queue s) -> sdu_ok (s_sdu s) ->
+  s_on_credits s n = (s', fs) ->
+  pending_bytes s' + zlen fs <= pending_bytes s.
+Proof.
+  intros H1 H2 H3 H4. unfold s_on_credits, process_output.
+  cbn [s_credits s_mtu s_mps s_queue s_sdu s_drained].
+  pose proof (po_measure (Z.to_nat (s_credits s + n)) (s_mtu s) (s_mps s) (s_queue s) (s_sdu s) (s_drained s)
+                H1 H2 H3 H4) as Hm.
+  destruct (po _ _ _ _ _ _) as [[[fs0 q'] sdu'] dr']. intros E. inversion E; subst.
+  unfold pending_bytes. cbn [s_queue s_sdu]. lia.
+Qed.
+
+Lemma l_deliver_decreases st g l :
+  linv st g -> l_enabled st l -> lmeasure (lr_state (l_step st l)) < lmeasure st.
+Proof.
+  intros [Hw Hab Hba] He. destruct Hw as [Wab Wba Wka Wkb Wwab Wwba].
+  destruct l as [d|d| |]; cbn [l_enabled] in He; try contradiction; cbn [l_step].
+  - destruct (l_ab st) as [|p w] eqn:Ew; [congruence|].
+    inversion Wwab as [|? ? Hp Wwab']; subst. destruct p as [cid d|cid n]; cbn [addressed] in Hp.
+    + cbn [ep_step]. rewrite Hp, Wab, Z.eqb_refl. cbn [er_state er_out lr_state].
+      unfold lmeasure, measure, view_ab, view_ba.
+      cbn [v_s v_F v_K l_a l_b l_ab l_ba with_rcv e_snd e_rcv]. rewrite Ew.
+      cbn [frames_of credits_of flat_map frame_of credit_of app].
+      fold (frames_of w). fold (credits_of w). lists_simpl.
+      rewrite zlen_cons, zlen_app.
+      pose proof (zlen_opt_list (rr_credit (r_on_pdu (e_rcv (l_b st)) d))). lia.
+    + cbn [ep_step]. rewrite Hp, Wkb, Wba, Z.eqb_refl.
+      destruct (s_on_credits (e_snd (l_b st)) n) as [s fs] eqn:Es.
+      cbn [er_state er_out lr_state].
+      pose proof (on_credits_measure _ _ _ _ (vi_mps _ Hba) (proj1 (vi_mtu _ Hba)) (vi_queue _ Hba)
+                    (vi_sdu _ Hba) Es) as Hm.
+      cbn [view_ba v_s] in Hm.
+      unfold lmeasure, measure, view_ab, view_ba.
+      cbn [v_s v_F v_K l_a l_b l_ab l_ba with_snd e_snd e_rcv]. rewrite Ew.
+      cbn [frames_of credits_of flat_map frame_of credit_of app].
+      fold (frames_of w). fold (credits_of w). unfold frames_out. lists_simpl.
+      rewrite zlen_cons, zlen_app. pose proof (zlen_nonneg fs). lia.
+  - destruct (l_ba st) as [|p w] eqn:Ew; [congruence|].
+    inversion Wwba as [|? ? Hp Wwba']; subst. destruct p as [cid d|cid n]; cbn [addressed] in Hp.
+    + cbn [ep_step]. rewrite Hp, Wba, Z.eqb_refl. cbn [er_state er_out lr_state].
+      unfold lmeasure, measure, view_ab, view_ba.
+      cbn [v_s v_F v_K l_a l_b l_ab l_ba with_rcv e_snd e_rcv]. rewrite Ew.
+      cbn [frames_of credits_of flat_map frame_of credit_of app].
+      fold (frames_of w). fold (credits_of w). lists_simpl.
+      rewrite zlen_cons, zlen_app.
+      pose proof (zlen_opt_list (rr_credit (r_on_pdu (e_rcv (l_a st)) d))). lia.
+    + cbn [ep_step]. rewrite Hp, Wka, Wab, Z.eqb_refl.
+      destruct (s_on_credits (e_snd (l_a st)) n) as [s fs] eqn:Es.
+      cbn [er_state er_out lr_state].
+      pose proof (on_credits_measure _ _ _ _ (vi_mps _ Hab) (proj1 (vi_mtu _ Hab)) (vi_queue _ Hab)
+                    (vi_sdu _ Hab) Es) as Hm.
+      cbn [view_ab v_s] in Hm.
+      unfold lmeasure, measure, view_ab, view_ba.
+      cbn [v_s v_F v_K l_a l_b l_ab l_ba with_snd e_snd e_rcv]. rewrite Ew.
+      cbn [frames_of credits_of flat_map frame_of credit_of app].
+      fold (frames_of w). fold (credits_of w). unfold frames_out. lists_simpl.
+      rewrite zlen_cons, zlen_app. pose proof (zlen_nonneg fs). lia.
+Qed.
+
+Fixpoint l_all_enabled (st : lsys) (ls : list label) : Prop :=
+  match ls with
+  | [] => True
+  | l :: ls' => l_enabled st l /\ l_all_enabled (lr_state (l_step st l)) ls'
+  end.
+
+Lemma l_enabled_ok st l : l_enabled st l -> label_ok l.
+Proof. destruct l; cbn; auto; contradiction. Qed.
+
+Lemma lmeasure_nonneg st : 0 <= lmeasure st.
+Proof.
+  unfold lmeasure, measure, pending_bytes.
+  repeat match goal with |- context [zlen ?x] => pose proof (zlen_nonneg x); generalize dependent (zlen x); intros end.
+  lia.
+Qed.
+
+Lemma l_deliveries_bounded ls : forall st g,
+  linv st g -> l_all_enabled st ls -> zlen ls <= lmeasure st.
+Proof.
+  induction ls as [|l ls IH]; intros st g Hi Hen.
+  - rewrite zlen_nil. apply lmeasure_nonneg.
+  - destruct Hen as (He & Hen). rewrite zlen_cons.
+    pose proof (l_deliver_decreases st g l Hi He) as Hd.
+    destruct (l_step_inv st g l Hi (l_enabled_ok st l He)) as (Hi' & _).
+    specialize (IH _ _ Hi' Hen). lia.
+Qed.
+
+Lemma l_completes st g : linv st g ->
+  exists ds, l_all_enabled st ds /\ l_ab (fst (l_run st ds)) = [] /\ l_ba (fst (l_run st ds)) = [].
+Proof.
+  intros Hi. remember (Z.to_nat (lmeasure st)) as k eqn:Hk.
+  revert st g Hi Hk. induction k as [k IH] using lt_wf_ind. intros st g Hi Hk.
+  assert (Hstep : forall l, l_enabled st l ->
+            exists ds, l_all_enabled st ds /\ l_ab (fst (l_run st ds)) = [] /\ l_ba (fst (l_run st ds)) = []).
+  { intros l He.
+    pose proof (l_deliver_decreases st g l Hi He) as Hd.
+    pose proof (lmeasure_nonneg (lr_state (l_step st l))) as H0.
+    destruct (l_step_inv st g l Hi (l_enabled_ok st l He)) as (Hi' & _).
+    destruct (IH (Z.to_nat (lmeasure (lr_state (l_step st l)))) ltac:(lia) _ _ Hi' eq_refl)
+      as (ds & Hen & Hq).
+    exists (l :: ds). split; [split; assumption|].
+    cbn [l_run]. destruct (l_run (lr_state (l_step st l)) ds) as [st' rs]. exact Hq. }
+  destruct (l_ab st) as [|p w] eqn:E1.
+  - destruct (l_ba st) as [|p w] eqn:E2.
+    + exists []. cbn. auto.
+    + apply (Hstep DeliverBA). cbn. congruence.
+  - apply (Hstep DeliverAB). cbn. congruence.
+Qed.
+
+(* ---------------------------------------- negotiated values never change *)
+Definition statics (st : lsys) :=
+  (e_src (l_a st), e_dst (l_a st), e_key (l_a st), s_mtu (e_snd (l_a st)), s_mps (e_snd (l_a st)),
+   r_max (e_rcv (l_a st)),
+   (e_src (l_b st), e_dst (l_b st), e_key (l_b st), s_mtu (e_snd (l_b st)), s_mps (e_snd (l_b st)),
+    r_max (e_rcv (l_b st)))).
+
+Lemma ep_step_static e v :
+  let e' := er_state (ep_step e v) in
+  e_src e' = e_src e /\ e_dst e' = e_dst e /\ e_key e' = e_key e /\
+  s_mtu (e_snd e') = s_mtu (e_snd e) /\ s_mps (e_snd e') = s_mps (e_snd e) /\
+  r_max (e_rcv e') = r_max (e_rcv e).
+Proof.
+  destruct v as [d|[cid d|cid n]]; cbn [ep_step].
+  - unfold s_write. pose proof (process_output_params
+      (mkSnd (s_credits (e_snd e)) (s_mtu (e_snd e)) (s_mps (e_snd e)) (s_queue (e_snd e) ++ [d]) (s_sdu (e_snd e)) false)) as H.
+    destruct (process_output _) as [s fs]. cbn in *. tauto.
+  - destruct (cid =? e_src e); cbn; [|tauto].
+    pose proof (r_on_pdu_asm (e_rcv e) d) as H. cbv zeta in H. tauto.
+  - destruct (cid =? e_key e); [|cbn; tauto].
+    unfold s_on_credits. pose proof (process_output_params
+      (mkSnd (s_credits (e_snd e) + n) (s_mtu (e_snd e)) (s_mps (e_snd e)) (s_queue (e_snd e)) (s_sdu (e_snd e)) (s_drained (e_snd e)))) as H.
+    destruct (process_output _) as [s fs]. cbn in *. tauto.
+Qed.
+
+Lemma l_step_static st l : statics (lr_state (l_step st l)) = statics st.
+Proof.
+  unfold statics. destruct l as [d|d| |]; cbn [l_step].
+  - pose proof (ep_step_static (l_a st) (EWrite d)) as H. cbv zeta in H.
+    cbn [lr_state l_a l_b]. destruct H as (-> & -> & -> & -> & -> & ->). reflexivity.
+  - pose proof (ep_step_static (l_b st) (EWrite d)) as H. cbv zeta in H.
+    cbn [lr_state l_a l_b]. destruct H as (-> & -> & -> & -> & -> & ->). reflexivity.
+  - destruct (l_ab st) as [|p w]; [reflexivity|].
+    pose proof (ep_step_static (l_b st) (ERecv p)) as H. cbv zeta in H.
+    cbn [lr_state l_a l_b]. destruct H as (-> & -> & -> & -> & -> & ->). reflexivity.
+  - destruct (l_ba st) as [|p w]; [reflexivity|].
+    pose proof (ep_step_static (l_a st) (ERecv p)) as H. cbv zeta in H.
+    cbn [lr_state l_a l_b]. destruct H as (-> & -> & -> & -> & -> & ->). reflexivity.
+Qed.
+
+Lemma l_run_static ls : forall st, statics (fst (l_run st ls)) = statics st.
+Proof.
+  induction ls as [|l ls IH]; intros st; cbn [l_run]; [reflexivity|].
+  specialize (IH (lr_state (l_step st l))).
+  destruct (l_run (lr_state (l_step st l)) ls) as [st' rs]. cbn [fst] in *.
+  rewrite IH. apply l_step_static.
+Qed.
+
+(* ------------------------------------------------ the theorems of Props/C07 *)
+Section Top.
+  Variables (ka kb : kind) (cid_a cid_b mtu_a mps_a cr_a mtu_b mps_b cr_b : Z).
+  Hypothesis (Ha : params_ok mtu_a mps_a cr_a) (Hb : params_ok mtu_b mps_b cr_b).
+
+  Definition sys0 : lsys :=
+    l_init (lecoc_keysel ka) (lecoc_keysel kb) cid_a cid_b mtu_a mps_a cr_a mtu_b mps_b cr_b.
+
+  Lemma reach_inv ls : Forall label_ok ls ->
+    let '(st, rs) := l_run sys0 ls in
+    linv st (mkG (written_a ls) (written_b ls) (sunk_a rs) (sunk_b rs)) /\ Forall clean rs.
+  Proof.
+    intros Hok. pose proof (l_run_inv ls sys0 (mkG [] [] [] []) (linv_init ka kb _ _ _ _ _ _ _ _ Ha Hb) Hok) as H.
+    destruct (l_run sys0 ls) as [st rs]. exact H.
+  Qed.
+
+  Lemma reach_statics ls :
+    let st := fst (l_run sys0 ls) in
+    s_mtu (e_snd (l_a st)) = mtu_b /\ s_mps (e_snd (l_a st)) = mps_b /\ r_max (e_rcv (l_b st)) = cr_b /\
+    s_mtu (e_snd (l_b st)) = mtu_a /\ s_mps (e_snd (l_b st)) = mps_a /\ r_max (e_rcv (l_a st)) = cr_a.
+  Proof.
+    cbv zeta. pose proof (l_run_static ls sys0) as H. unfold statics in H.
+    inversion H as [[H1 H2 H3 H4 H5 H6 H7 H8 H9 H10 H11 H12]].
+    rewrite H4, H5, H6, H10, H11, H12. repeat split; reflexivity.
+  Qed.
+
+  Theorem stream_exact ls : Forall label_ok ls ->
+    let '(st, rs) := l_run sys0 ls in
+    (exists X, written_a ls = sunk_b rs ++ X) /\
+    (exists Y, written_b ls = sunk_a rs ++ Y) /\
+    (l_ab st = [] -> l_ba st = [] ->
+       written_a ls = sunk_b rs /\ written_b ls = sunk_a rs /\
+       s_drained (e_snd (l_a st)) = true /\ s_drained (e_snd (l_b st)) = true).
+  Proof.
+    intros Hok. pose proof (reach_inv ls Hok) as H. destruct (l_run sys0 ls) as [st rs].
+    destruct H as ([Hw Hab Hba] & _).
+    split; [apply (vinv_prefix _ Hab)|]. split; [apply (vinv_prefix _ Hba)|].
+    intros E1 E2.
+    assert (Q1 : v_quiet (view_ab st (mkG (written_a ls) (written_b ls) (sunk_a rs) (sunk_b rs)))).
+    { split; cbn [view_ab v_F v_K]; [rewrite E1|rewrite E2]; reflexivity. }
+    assert (Q2 : v_quiet (view_ba st (mkG (written_a ls) (written_b ls) (sunk_a rs) (sunk_b rs)))).
+    { split; cbn [view_ba v_F v_K]; [rewrite E2|rewrite E1]; reflexivity. }
+    destruct (vinv_quiet_final _ Hab Q1) as (F1 & _ & _ & D1).
+    destruct (vinv_quiet_final _ Hba Q2) as (F2 & _ & _ & D2).
+    cbn in F1, F2, D1, D2. auto.
+  Qed.
+
+  (* the credit ledger, in every reachable state, in both directions *)
+  Definition ledger (s : sndr) (r : rcvr) (frames credits : list pkt) (granted : Z) : Prop :=
+    s_credits s + zlen (frames_of frames) + zsum (credits_of credits) = r_credits r /\
+    0 <= s_credits s /\ 0 < r_credits r <= granted.
+
+  Theorem credit_safe ls : Forall label_ok ls ->
+    let st := fst (l_run sys0 ls) in
+    ledger (e_snd (l_a st)) (e_rcv (l_b st)) (l_ab st) (l_ba st) cr_b /\
+    ledger (e_snd (l_b st)) (e_rcv (l_a st)) (l_ba st) (l_ab st) cr_a.
+  Proof.
+    intros Hok. pose proof (reach_inv ls Hok) as H. pose proof (reach_statics ls) as Hs.
+    destruct (l_run sys0 ls) as [st rs]. cbn [fst] in *.
+    destruct H as ([Hw Hab Hba] & _). destruct Hs as (_ & _ & S3 & _ & _ & S6).
+    pose proof (vi_rc _ Hab) as R1. pose proof (vi_rc _ Hba) as R2.
+    pose proof (vi_max _ Hab) as M1. pose proof (vi_max _ Hba) as M2.
+    cbn [view_ab view_ba v_r v_s] in *.
+    assert (0 <= r_max (e_rcv (l_b st)) / 2) by (apply Z.div_pos; lia).
+    assert (0 <= r_max (e_rcv (l_a st)) / 2) by (apply Z.div_pos; lia).
+    split; (split; [|split]).
+    - apply (vi_ledger _ Hab).
+    - apply (vi_cred _ Hab).
+    - lia.
+    - apply (vi_ledger _ Hba).
+    - apply (vi_cred _ Hba).
+    - lia.
+  Qed.
+
+  Theorem frame_le_mps ls : Forall label_ok ls ->
+    let st := fst (l_run sys0 ls) in
+    frames_within mps_b (l_ab st) /\ frames_within mps_a (l_ba st).
+  Proof.
+    intros Hok. pose proof (reach_inv ls Hok) as H. pose proof (reach_statics ls) as Hs.
+    destruct (l_run sys0 ls) as [st rs]. cbn [fst] in *.
+    destruct H as (Hi & _). destruct Hs as (_ & S2 & _ & _ & S5 & _).
+    pose proof (linv_wire_frames _ _ Hi) as Hf. rewrite S2, S5 in Hf. exact Hf.
+  Qed.
+
+  Theorem sdu_le_mtu ls : Forall label_ok ls ->
+    let st := fst (l_run sys0 ls) in
+    (forall d, lr_sink_b (l_step st DeliverAB) = Some d -> 1 <= zlen d <= mtu_b) /\
+    (forall d, lr_sink_a (l_step st DeliverBA) = Some d -> 1 <= zlen d <= mtu_a).
+  Proof.
+    intros Hok. pose proof (reach_inv ls Hok) as H. pose proof (reach_statics ls) as Hs.
+    destruct (l_run sys0 ls) as [st rs]. cbn [fst] in *.
+    destruct H as (Hi & _). destruct Hs as (S1 & _ & _ & S4 & _ & _).
+    split; intros d Hd.
+    - destruct (l_step_sink_b _ _ d Hi Hd) as ((Hv & _) & Hm). rewrite S1 in Hm. lia.
+    - destruct (l_step_sink_a _ _ d Hi Hd) as ((Hv & _) & Hm). rewrite S4 in Hm. lia.
+  Qed.
+
+  (* no packet is ever dropped by the routing and no SDU overflows, whatever the
+     two sides' channel identifiers are *)
+  Theorem credits_routed ls : Forall label_ok ls -> Forall clean (snd (l_run sys0 ls)).
+  Proof.
+    intros Hok. pose proof (reach_inv ls Hok) as H. destruct (l_run sys0 ls) as [st rs]. apply H.
+  Qed.
+
+  (* not stuck: while anything written is undelivered, or a drain() has not
+     completed, a delivery is enabled *)
+  Theorem progress ls : Forall label_ok ls ->
+    let '(st, rs) := l_run sys0 ls in
+    (written_a ls <> sunk_b rs \/ written_b ls <> sunk_a rs \/
+     s_drained (e_snd (l_a st)) = false \/ s_drained (e_snd (l_b st)) = false) ->
+    l_ab st <> [] \/ l_ba st <> [].
+  Proof.
+    intros Hok. pose proof (stream_exact ls Hok) as H. destruct (l_run sys0 ls) as [st rs].
+    destruct H as (_ & _ & Hq). intros Hnf.
+    destruct (l_ab st) eqn:E1; [|left; discriminate].
+    destruct (l_ba st) eqn:E2; [|right; discriminate].
+    exfalso. destruct (Hq eq_refl eq_refl) as (Q1 & Q2 & Q3 & Q4).
+    destruct Hnf as [N|[N|[N|N]]]; try contradiction; congruence.
+  Qed.
+  (* with no further writes every schedule of enabled deliveries from a reachable
+     state is at most [lmeasure] long, and some schedule empties both wires (after
+     which, by [stream_exact], everything has been delivered) *)
+  Theorem progress_terminates ls : Forall label_ok ls ->
+    let st := fst (l_run sys0 ls) in
+    (forall ds, l_all_enabled st ds -> zlen ds <= lmeasure st) /\
+    (exists ds, l_all_enabled st ds /\ l_ab (fst (l_run st ds)) = [] /\ l_ba (fst (l_run st ds)) = []).
+  Proof.
+    intros Hok. pose proof (reach_inv ls Hok) as H. destruct (l_run sys0 ls) as [st rs]. cbn [fst].
+    destruct H as (Hi & _). split.
+    - intros ds Hen. exact (l_deliveries_bounded ds st _ Hi Hen).
+    - exact (l_completes st _ Hi).
+  Qed.
+End Top.
